@@ -2,6 +2,7 @@
 //@ extract enum BytesFromType from src/classic/clvm/__type_compatibility__.rs
 //@ end
 //@ extract struct Bytes from src/classic/clvm/__type_compatibility__.rs
+//@ derives
 //@ end
 pub closed spec fn bv(b: Bytes) -> Seq<u8> { b._b@ }
 
